@@ -321,7 +321,7 @@ func TestCheck(t *testing.T) {
 		"cluster from cluster.NewForT with real key shares, n in 3..%d, t=ceil(2n/3), 3 validators; 1..3 validators per call; "+
 		"attestations: 40%% straddle a fork activation epoch F of the node's schedule (target F or F+1, source F-1 or F-2), else target from the epoch mix with the source right behind / a few epochs behind / anywhere; "+
 		"call class PRNG: valid (threshold subsets walked round-robin so that every subset of size >= t is used for n<=5; PRNG subsets above, partial order shuffled) / one of %d must-error corruption classes applied to exactly one validator of the call / one of %d universal-only classes; "+
-		"the other-domain/* classes sign the object's own root with genuine shares under a domain that is not the object's own (previous / next fork version of the schedule, another domain type, the schedule's domain at another epoch: attestation source epoch or slot epoch, own epoch +-1, the other side of the nearest fork activation, for exits and builder registrations the plain schedule domain; all partials, or 1..len-1 of them in the mixed class); "+
+		"the other-domain/* classes sign the object's own root with genuine shares under a domain that is not the object's own (previous / next fork version of the schedule, another domain type, the schedule's domain at another epoch: attestation source epoch or slot epoch, own epoch +-1, the other side of the nearest fork activation, for exits and builder registrations the plain schedule domain; all partials, or 1..len-1 of them in the mixed class; other-domain-type is drawn with triple weight and walks the other domain types round-robin per object kind); "+
 		"30%% of the valid calls are followed by a replay that keeps one validator's first partial byte-identical and re-signs another of its partials with an unrelated key (must be refused although the same head was verified a moment before); "+
 		"35%% of all calls (valid and corrupted alike) run under a per-call beacon-node fault plan carried in the context: 1-2 rules over the verifier's lookups (Spec, Domain, GenesisDomain, Genesis, ForkSchedule, SlotsPerEpoch, or 'k-th lookup of the call whichever it is'), each failing with an error or a context-deadline error always / only the k-th time / from the k-th time on; "+
 		"non-trivial = the call carried at least one validator with >= t partials or a corruption; distinct = hash(kind, n, class, labels, corrupted position, validators)",
